@@ -74,7 +74,7 @@ def main(argv=None):
     if not hits:
       print(f'replay: case passes now (property={pid} site={payload["site"]})')
       return 0
-    same = core.jsonable(hits[0]['detail']) == payload['detail']
+    same = any(core.jsonable(w['detail']) == payload['detail'] for w in hits)
     print(f'replay: case fails; observation {"identical to" if same else "differs from"} the recorded one')
     print(json.dumps(hits[0]['detail'], indent=1))
     print(f'VIOLATION property={pid} replay={args.replay}')
@@ -118,9 +118,9 @@ def main(argv=None):
       res = core.run_units(modname, [v['unit']], workers=2, devices=devices, x64=x64, only=v['key'], progress=False)
       res = res[0]
       hits = [w for w in res['violations'] if w['site'] == v['site'] and w['key'] == v['key']]
-      if not hits or core.jsonable(hits[0]['detail']) != v['detail']:
+      if not any(core.jsonable(w['detail']) == v['detail'] for w in hits):
         print(f'HARNESS-ERROR property={pid}: violation at {v["site"]} key={v["key"]} did not reproduce identically '
-              f'(first={v["detail"]} second={hits[0]["detail"] if hits else None})')
+              f'(first={v["detail"]} second={[w["detail"] for w in hits[:3]]})')
         exit_code = 2
         continue
     path = core.write_replay(pid, v, args.tier, seed)
